@@ -14,6 +14,7 @@ import SoyVerif.Ops.Value
 import SoyVerif.Ops.Json
 import SoyVerif.Ops.Msg
 import SoyVerif.Ops.JsGen
+import SoyVerif.Ops.JsSem
 import SoyVerif.Ops.Lexer
 import SoyVerif.Ops.FileParser
 import SoyVerif.Ops.Eval
@@ -33,6 +34,7 @@ def allOps : List Op :=
   Ops.Json.ops ++
   Ops.Msg.ops ++
   Ops.JsGen.ops ++
+  Ops.JsSem.ops ++
   Ops.Lexer.ops ++
   Ops.Eval.ops ++
   Ops.EvalSpec.ops
